@@ -55,11 +55,24 @@ void set_quiet( bool q );           // while quiet, the calling thread's atomic 
 uint64_t tick();                       // logical clock: real-time order of CALL/RET events
 void ev_note( std::string const& s );  // free-form line attached to the current thread: "T <tid> <s>"
 
+// Pseudo-events: a call into a component that the trace treats as ONE atomic step (e.g. a container that is
+// verified separately and runs under set_quiet).  Usage, exactly like an instrumented atomic operation:
+//     pseudo_begin();  set_quiet( true ); r = component.call(); set_quiet( false );  pseudo_end( "push", "buf", "o3", "1" );
+// pseudo_begin() is the scheduling point (no-op on an unscheduled or quiet thread); pseudo_end() appends the line
+// "T <tid> A <kind> <loc> <a> [<b>]" to the trace (tid -1 from an unscheduled thread, e.g. the main thread in finish()).
+void pseudo_begin();
+void pseudo_end( char const* kind, std::string const& loc, std::string const& a, std::string const& b = std::string());
+
 // Run `body(tid)` on `nthreads` real threads serialised by the scheduler.
 // If the step budget is exhausted or all live threads spin without any write in between,
 // `on_abort(status)` is called (it must not return: it writes what it needs and _exit()s).
+// Optional `prologue(tid)` / `epilogue(tid)`: run on thread tid's own OS thread, unscheduled and untraced, one thread
+// at a time in increasing tid order; every prologue ends before the first scheduling decision, every epilogue starts
+// after the last thread's body has returned (per-thread set-up that must exist for the whole scheduled run).
 RunStatus run_case( int nthreads, std::function<void( int )> const& body, SchedCfg const& cfg,
-                    std::function<void( RunStatus )> const& on_abort );
+                    std::function<void( RunStatus )> const& on_abort,
+                    std::function<void( int )> const& prologue = std::function<void( int )>(),
+                    std::function<void( int )> const& epilogue = std::function<void( int )>());
 
 // results of the last run
 uint64_t steps();
